@@ -7,7 +7,7 @@ ASSUMPTIONS = [
     'stable descending order = ties keep creation order (what sorted(reverse=True) does and the statement says: stably sorted, descending)',
     'navigation harness: pools of 2-3 instances per class; link state = solver-chosen index into the table of valid link matrices; links installed with relate() in a fixed order that the oracle knows',
 ]
-NOPS = 10
+NOPS = 11
 
 
 def conditions(tier, seed):
@@ -28,7 +28,7 @@ def conditions(tier, seed):
                             case_split=['si (operator sequence)', 'dead in {none, second instance}'],
                             twin=(f in (0, 4))))
     templates = ['a_B', 'b_A', 'setA_B', 'genA_B', 'listB_A', 'a_B_succ', 'b_prec_prec', 'b_succ', 'a_B_succ_A_B',
-                 'a_D', 'd_A', 'a_L_D', 'l_A', 'setA_D_A', 'subtype', 'filter_gt', 'filter_eq', 'filter_order',
+                 'a_D', 'd_A', 'a_L_D', 'l_A', 'setA_D_A', 'subtype', 'hetero_XY_A', 'hetero_YX_A', 'filter_gt', 'filter_eq', 'filter_order',
                  'none', 'invalid']
     for tpl in templates:
         out.append(Cond('nav_' + tpl, 'c09_nav.py', dict(template=tpl), timeout=t,
